@@ -15,7 +15,7 @@ variant_flags() {
     asan)
       CXX=clang++
       SIMFLAGS="-O1 -g -fno-omit-frame-pointer -fsanitize=address -fsanitize=bounds,null,shift,signed-integer-overflow,integer-divide-by-zero,unreachable,return,bool,enum -fno-sanitize-recover=all"
-      LIBFLAGS="$SIMFLAGS -fsanitize-coverage=trace-pc-guard"   # edges of library code are counted (edgecount.cpp): C02 promptness
+      LIBFLAGS="$SIMFLAGS -fsanitize-coverage=trace-pc-guard,trace-cmp"   # edges of library code are counted (edgecount.cpp): C02 promptness; comparison operands: derived frames
       LDFLAGS="-fsanitize=address -fsanitize=bounds,null,shift,signed-integer-overflow,integer-divide-by-zero,unreachable,return,bool,enum"
       DEFS="-DSIM_VARIANT_ASAN"
       ;;
